@@ -400,6 +400,47 @@ func checkGeneratedIdentifiers(c *Ctx, r *Report) {
 			}
 			for _, array := range variants {
 				toks := goToks(expand(b.Program, 0, array))
+				// the arm is rendered once per parameter into one function body: a name it declares at
+				// its top level must carry the parameter's name, or two parameters of that location
+				// declare the same identifier in one scope (`no new variables on left side of :=` /
+				// `redeclared in this block`)
+				depthBr := 0
+				inHeader := false // between if/for/switch and its `{`: names declared there are scoped to the statement
+				for i, tk := range toks {
+					switch tk.Tok {
+					case token.IF, token.FOR, token.SWITCH:
+						inHeader = true
+					case token.LBRACE:
+						if inHeader {
+							inHeader = false
+						}
+						depthBr++
+					case token.RBRACE:
+						depthBr--
+					}
+					if depthBr != 0 || inHeader || tk.Tok != token.DEFINE {
+						continue
+					}
+					// the left-hand side: identifiers and commas right before `:=`
+					var lhs []string
+					for j := i - 1; j >= 0 && (toks[j].Tok == token.IDENT || toks[j].Tok == token.COMMA); j-- {
+						if toks[j].Tok == token.IDENT {
+							lhs = append(lhs, toks[j].Lit)
+						}
+						if j > 0 && toks[j].Tok == token.IDENT && toks[j-1].Tok != token.COMMA {
+							break
+						}
+					}
+					perParam := false
+					for _, id := range lhs {
+						if strings.Contains(id, "M_") || id == "_" {
+							perParam = perParam || id != "_"
+						}
+					}
+					if len(lhs) > 0 && !perParam {
+						viol = fmt.Sprintf("%s %s arm (array=%v): `%s :=` declares a name that does not contain the parameter's name: with two %s parameters on one route the handler declares it twice and the routes file does not compile", en, loc, array, strings.Join(lhs, ", "), loc)
+					}
+				}
 				declared := map[string]bool{}
 				for i, tk := range toks {
 					if tk.Tok != token.IDENT || !strings.Contains(tk.Lit, "M_") {
